@@ -154,3 +154,11 @@ def c20(F, R, tier):
 def c10(F, R, tier):
     import c10 as mod
     mod.check(F, R, tier)
+
+
+@prop("C08",
+      technique="static: must-precede / dominance rules on MIR, local data-flow and who-may-write rules on typed HIR, guard/field-set agreement for big-M constants",
+      explanation="Decides (D-SORTED) the variable list handed to LinearModel::new_from_parts is the local sorted once (sort dominates construction on MIR), never mutated, derived from the unique keys of the domain marked used; the domain is filtered by membership in it and column indexes enumerate it; (D-USAGE) every Exp::Variable built in PreExp::into_exp is dominated by increment_domain_variable_usage of the same name, auxiliaries are marked used on declaration, the builder marks all; (D-FINITE) each of the 4 big-M constants built from bound end-points uses only end-points that the MissingFiniteBounds guard of the same lowering (and the same min/max arm) tests finite; (FINITE-SANITISE) a finiteness test exists between linearised expressions and the rows / objective offset; (N-NAMES) row-name de-duplication tests user and assigned names and keeps the first use, declare_variable rejects existing names, all auxiliary templates start with `$`, every name counter is incremented; (W-COEFF) LinearizationContext::add_var, which merges, is the only writer of coefficients. NOT decided: nothing numeric is needed; the D-rules follow helpers one level only.")
+def c08(F, R, tier):
+    import c08 as mod
+    mod.check(F, R)
